@@ -37,15 +37,21 @@ def strings(tier):
     return out + REALISTIC
 
 
-def payload_tree(seed, single):
+def payload_tree(seed, single, small=False):
+    if small:
+        # no file longer than a piece: `piece layers` is an empty dictionary
+        if single:
+            return {(): world.content(seed, 0, P0)}
+        return {("a",): world.content(seed, 0, P0),
+                ("d", "b"): world.content(seed, 1, 5)}
     if single:
         return {(): world.content(seed, 0, P0 + 3)}
     return {("a",): world.content(seed, 0, 2 * P0 + 1),
             ("d", "b"): world.content(seed, 1, 5)}
 
 
-def build(version, name, s, ann, url, extra, seed, single):
-    tree = payload_tree(seed, single)
+def build(version, name, s, ann, url, extra, seed, single, small=False):
+    tree = payload_tree(seed, single, small)
     if version == 1:
         meta = model.ref_v1(name, tree, P0)
     elif version == 2:
@@ -179,16 +185,19 @@ class MagnetCheck:
         version = g["version"]
         reqs = [0] if version != 3 else [0, 1, 2, 3]
         for s in strings(g["tier"]):
-            for extra in EXTRA:
+            for extra in EXTRA + ["small"]:
                 for single in (False, True):
                     if single and extra == "extra":
                         continue
-                    raw = build(version, s, s, g["ann"], g["url"], extra,
-                                seed, single)
+                    if extra == "small" and len(s) != 1:
+                        continue
+                    raw = build(version, s, s, g["ann"], g["url"],
+                                "plain" if extra == "small" else extra,
+                                seed, single, small=extra == "small")
                     res.states += 1
                     for vr in reqs:
                         routes = ["lib"]
-                        if len(s) == 1 and extra == "plain":
+                        if len(s) == 1 and extra in ("plain", "small"):
                             routes.append("cli")
                         for route in routes:
                             probs = self.run_case(raw, vr, route, work)
@@ -289,8 +298,9 @@ class MagnetCheck:
         work = world.fresh_dir()
         if case["kind"] == "ref":
             raw = build(case["version"], case["s"], case["s"], case["ann"],
-                        case["url"], case["extra"], case["seed"],
-                        case["single"])
+                        case["url"], "plain" if case["extra"] == "small"
+                        else case["extra"], case["seed"], case["single"],
+                        small=case["extra"] == "small")
             probs = self.run_case(raw, case["req"], case["route"], work)
             return [{"sig": "C11|" + p, "detail": d} for p, d in probs]
         res = core.Result()
